@@ -73,9 +73,11 @@ func (b *Body) Read(p []byte) (int, error) {
 	if b.Closed > 0 {
 		return 0, errors.New("http: invalid Read on closed Body")
 	}
-	if len(p) == 0 {
+	if len(p) == 0 && !b.Pipe {
 		return 0, nil
 	}
+	// (In stream mode the body behaves like an HTTP/2 request body: net/http's pipe makes
+	// EVERY Read wait until data or the end has arrived - also a Read into an empty buffer.)
 	if b.Pipe {
 		for b.off >= len(b.Data) && b.Open {
 			if b.H == nil {
@@ -91,6 +93,9 @@ func (b *Body) Read(p []byte) (int, error) {
 	limit := len(b.Data)
 	if b.FailAt >= 0 && b.FailAt < limit {
 		limit = b.FailAt
+	}
+	if len(p) == 0 && b.off < limit {
+		return 0, nil
 	}
 	if b.off >= limit {
 		b.Hist = mix(b.Hist, 2, len(p))
